@@ -68,6 +68,7 @@ type Ev struct {
 	Action  uint16    `json:"action,omitempty"`
 	NewGNB  int       `json:"new_gnb,omitempty"` // 0: unchanged, else gnb index+1
 	NewTEID uint32    `json:"new_teid,omitempty"`
+	IDLast  bool      `json:"id_last,omitempty"` // updfar: FAR ID IE after the Apply Action IE
 	Spec    *SessSpec `json:"spec,omitempty"`
 }
 type Case struct {
@@ -347,7 +348,7 @@ func run(c Case) (v *vcore.Violation, stt stats) {
 			if fa == nil {
 				continue
 			}
-			op := stack.RuleOp{Verb: "update", Kind: "FAR", ID: ev.FAR, Action: ev.Action, HasAction: true}
+			op := stack.RuleOp{Verb: "update", Kind: "FAR", ID: ev.FAR, Action: ev.Action, HasAction: true, IDLast: ev.IDLast}
 			old := *fa
 			if ev.NewGNB > 0 {
 				op.OHC = &stack.OHC{TEID: ev.NewTEID, Peer: f.S.Net.IP(10 + ev.NewGNB - 1)}
@@ -616,6 +617,9 @@ func gen(t *rapid.T) Case {
 			if rapid.IntRange(0, 5).Draw(t, "newohc") == 0 {
 				ev.NewGNB = rapid.IntRange(1, 3).Draw(t, "newgnb")
 				ev.NewTEID = rapid.Uint32().Draw(t, "newteid")
+			}
+			if rapid.IntRange(0, 3).Draw(t, "idlast") == 0 {
+				ev.IDLast = true
 			}
 		case "rmpdr":
 			ev.PDR = uint16(rapid.IntRange(1, 3).Draw(t, "pdr"))
